@@ -48,7 +48,7 @@ def run(ctx: Ctx) -> Result:
         c = {}
         for i in range(1, 9):
             if rng.random() < .5: c[f'sigfield{i}'] = V.rbytes(rng, rng.choice([0, 1, 5, 40]))
-        return c
+        return G.shuffled(rng, c) if rng.random() < .6 else c      # the message is in index order whatever the dict's insertion order
     pairs = []
     if ctx.tier == 'thorough':
         pats = [presence(rng), {f'sigfield{i}': bytes([i]) * i for i in range(1, 9)}]
